@@ -5,6 +5,7 @@ import (
 	"fmt"
 	"hash/fnv"
 	"math/rand"
+	"os"
 	"reflect"
 	"runtime"
 	"sort"
@@ -135,25 +136,43 @@ type callDesc struct {
 
 // session drives one model instance.
 type session struct {
-	entry   modelEntry
-	model   reflect.Value
-	methods []reflect.Method
-	g       *pbgen.Gen
-	r       *rand.Rand
-	tr      *tracker
-	cancels []context.CancelFunc
-	wg      sync.WaitGroup
-	trace   []callDesc
-	msgTys  []protoreflect.MessageDescriptor // message types seen in signatures (targets of masks)
-	owned   []proto.Message                  // messages this caller handed to the model
-	events  int64
-	evMu    sync.Mutex
-	skipped []string // public methods whose parameters the generator cannot produce (streams, funcs, ...)
+	entry     modelEntry
+	model     reflect.Value
+	methods   []reflect.Method
+	g         *pbgen.Gen
+	r         *rand.Rand
+	tr        *tracker
+	cancels   []context.CancelFunc
+	wg        sync.WaitGroup
+	trace     []callDesc
+	msgTys    []protoreflect.MessageDescriptor // message types seen in signatures (targets of masks)
+	owned     []proto.Message                  // messages this caller handed to the model
+	events    int64
+	evMu      sync.Mutex
+	lastFrame *frameDiff
+	skipped   []string // public methods whose parameters the generator cannot produce (streams, funcs, ...)
 	// server-streaming RPCs of the services the model registers (captured by calling its Register method with a
 	// recording grpc.ServiceRegistrar); driven through the generated stream handlers with a recording ServerStream
 	rpcs       []streamRPC
 	registered []string // services captured from Register
 	configured string   // how the instance was constructed ("default" or the generated configuration)
+	// round 6 (frame.go): generation version (replays of older inputs keep the older generator), frame checks,
+	// subscriptions with stalled consumers
+	v           int
+	frames      bool
+	fpChecked   bool
+	probes      []probe
+	curSub      *subscription
+	forceBP     bool
+	wedged      bool
+	textFP      bool
+	lastK       int
+	plainBP     bool
+	writesOnly  bool
+	haveLast    bool
+	parkedCalls int
+	subscribed  bool
+	gates
 }
 
 func supportedParam(t reflect.Type) bool {
@@ -176,13 +195,21 @@ func supportedParam(t reflect.Type) bool {
 	return false
 }
 
-func newSession(e modelEntry, r *rand.Rand) *session { return newSessionCfg(e, r, false, 0.4) }
+func newSession(e modelEntry, r *rand.Rand) *session {
+	return newSessionCfg(e, r, false, 0.4, genVersion)
+}
+
+// genVersion is the current version of the sequence generator; a replay input carries the version it was drawn with.
+const genVersion = 6
+
+func timeAfter3s() <-chan time.Time { return time.After(3 * time.Second) }
 
 // newSessionCfg builds the driven instance: default-constructed, or (configured) from generated constructor
 // arguments (drive.go). density is the probability that a field of a generated message is populated.
-func newSessionCfg(e modelEntry, r *rand.Rand, configured bool, density float64) *session {
-	s := &session{entry: e, r: r, g: pbgen.New(r), tr: newTracker(), configured: "default"}
-	s.g.Density, s.g.MaxDepth = density, 2
+func newSessionCfg(e modelEntry, r *rand.Rand, configured bool, density float64, v int) *session {
+	s := &session{entry: e, r: r, g: pbgen.New(r), tr: newTracker(), configured: "default", v: v}
+	s.gateCond = sync.NewCond(&s.gateMu)
+	s.g.Density, s.g.MaxDepth, s.g.LeafWKT = density, 2, v >= 6
 	if configured {
 		if inst, how, ok := s.configure(e); ok {
 			s.model, s.configured = inst, how
@@ -254,10 +281,12 @@ func newSessionCfg(e modelEntry, r *rand.Rand, configured bool, density float64)
 			}
 		}
 	}
+	s.findProbes()
 	return s
 }
 
 func (s *session) close() {
+	s.endGates()
 	for _, c := range s.cancels {
 		c()
 	}
@@ -375,6 +404,12 @@ func (s *session) arg(t reflect.Type, wantsStream bool, desc *[]string) reflect.
 			return out
 		case tReadOpt:
 			d := "ropts["
+			if s.plainBP {
+				// the stalled subscribers of subscribeAll: backpressure and nothing else (no mask that makes consecutive
+				// values equal, a seed if there is one)
+				*desc = append(*desc, "ropts[Backpressure ]")
+				return reflect.Append(out, reflect.ValueOf(resource.WithBackpressure(true)))
+			}
 			if s.r.Intn(2) == 0 {
 				p := s.readMaskPaths()
 				d += fmt.Sprintf("WithReadMask%v ", p)
@@ -384,7 +419,7 @@ func (s *session) arg(t reflect.Type, wantsStream bool, desc *[]string) reflect.
 				d += "UpdatesOnly "
 				out = reflect.Append(out, reflect.ValueOf(resource.WithUpdatesOnly(true)))
 			}
-			if s.r.Intn(2) == 0 {
+			if s.r.Intn(2) == 0 || s.forceBP {
 				d += "Backpressure "
 				out = reflect.Append(out, reflect.ValueOf(resource.WithBackpressure(true)))
 			}
@@ -485,17 +520,17 @@ func (s *session) harvest(v reflect.Value, origin string, depth int, fromEvent b
 		if t.ChanDir()&reflect.RecvDir == 0 || v.IsNil() {
 			return
 		}
+		sub := s.curSub
 		s.wg.Add(1)
 		go func() {
 			defer s.wg.Done()
 			for {
+				s.take(sub) // a stalled consumer waits here until it is granted an item
 				x, ok := v.Recv()
 				if !ok {
 					return
 				}
-				s.evMu.Lock()
-				s.events++
-				s.evMu.Unlock()
+				s.countEvent(sub)
 				s.harvest(x, strings.TrimSuffix(origin, "/ret")+"/event", depth+1, true)
 			}
 		}()
@@ -575,6 +610,7 @@ func (s *session) settle() {
 // step performs one random call. It returns the method called and whether the call completed.
 func (s *session) step(i int) (method string, hung bool) {
 	s.tr.setStep(i)
+	s.lastFrame = nil
 	// occasionally the caller edits a message it passed to an earlier call (allowed by the property)
 	if len(s.owned) > 0 && s.r.Intn(5) == 0 {
 		m := s.owned[s.r.Intn(len(s.owned))]
@@ -583,8 +619,45 @@ func (s *session) step(i int) (method string, hung bool) {
 		return "caller-edit", false
 	}
 	k := s.r.Intn(len(s.methods) + len(s.rpcs))
+	if s.writesOnly {
+		// second half of a subscribers-first session: only the methods that are not reads, behind the stalled consumers
+		var w []int
+		for j, m := range s.methods {
+			if !readOnlyMethod(m) {
+				w = append(w, j)
+			}
+		}
+		if len(w) > 0 {
+			k = w[s.r.Intn(len(w))]
+		}
+	}
+	// bursts: one step in three repeats the previous step's method (new arguments): consecutive writes to one
+	// resource are what fills the pipeline of a consumer that does not keep up
+	if s.v >= 6 && s.haveLast && s.r.Intn(3) == 0 {
+		k = s.lastK
+	}
+	s.lastK, s.haveLast = k, true
+	return s.invoke(i, k, stallRandom)
+}
+
+// invoke calls method k (an index into methods followed by rpcs) with generated arguments.
+func (s *session) invoke(i, k int, stall int) (method string, hung bool) {
+	s.lastFrame = nil
+	drawStall := func() bool {
+		switch {
+		case s.v < 6 || stall == stallNever:
+			return false
+		case stall == stallAlways:
+			return true
+		}
+		return s.r.Intn(3) == 0
+	}
 	if k >= len(s.methods) {
-		return s.stepRPC(i, s.rpcs[k-len(s.methods)])
+		rpc := s.rpcs[k-len(s.methods)]
+		w := s.openFrame(i, "rpc:"+rpc.desc.StreamName)
+		method, hung = s.stepRPC(i, rpc, drawStall())
+		s.lastFrame = s.closeFrame(w, method)
+		return method, hung
 	}
 	m := s.methods[k]
 	wantsStream := false
@@ -592,6 +665,16 @@ func (s *session) step(i int) (method string, hung bool) {
 		if m.Type.Out(j).Kind() == reflect.Chan {
 			wantsStream = true
 		}
+	}
+	s.curSub, s.forceBP = nil, false
+	if wantsStream {
+		st := drawStall()
+		s.curSub, s.forceBP, s.plainBP = s.newSub(m.Name, i, st), st, stall == stallAlways
+	}
+	defer func() { s.curSub, s.forceBP, s.plainBP = nil, false, false }()
+	var w *frameWindow
+	if readOnlyMethod(m) {
+		w = s.openFrame(i, m.Name)
 	}
 	var desc []string
 	args := []reflect.Value{s.model}
@@ -615,12 +698,17 @@ func (s *session) step(i int) (method string, hung bool) {
 			done <- ""
 		}
 	}()
-	var res string
-	select {
-	case res = <-done:
-	case <-time.After(3 * time.Second):
+	res, parked, hung := s.await(done)
+	if hung {
 		s.trace = append(s.trace, callDesc{Step: i, Method: m.Name, Args: desc, Out: "<call did not return within 3s>"})
 		return m.Name, true
+	}
+	if s.curSub != nil && s.curSub.wantStall {
+		desc = append(desc, "(the consumer of this stream is stalled)")
+	}
+	if parked {
+		s.parkedCalls++
+		desc = append(desc, "(the call was parked behind stalled consumers; they took one item at a time until it returned)")
 	}
 	out := res
 	if res == "" {
@@ -633,6 +721,7 @@ func (s *session) step(i int) (method string, hung bool) {
 	}
 	s.settle()
 	s.trace = append(s.trace, callDesc{Step: i, Method: m.Name, Args: desc, Out: out})
+	s.lastFrame = s.closeFrame(w, m.Name)
 	return m.Name, false
 }
 
@@ -678,6 +767,7 @@ type modelSeq struct {
 	Seed  int64  `json:"seed"`
 	Seq   int    `json:"seq"`
 	Steps int    `json:"steps"`
+	V     int    `json:"v,omitempty"` // generator version (0: before round 6)
 }
 
 func seqRand(seed int64, model string, seq int) *rand.Rand {
@@ -704,7 +794,7 @@ func runModelSeq(ms modelSeq, mon *lib.Monitor) int {
 	}
 	// odd sequences drive a configured instance (generated constructor arguments), even ones the default instance;
 	// the density of generated messages cycles through sparse / medium / dense
-	s := newSessionCfg(e, seqRand(ms.Seed, ms.Model, ms.Seq), ms.Seq%2 == 1, []float64{0.4, 0.65, 0.85}[(ms.Seq/2)%3])
+	s := newSeqSession(e, ms)
 	defer s.close()
 	if len(s.methods) == 0 {
 		return 0
@@ -732,23 +822,105 @@ func runModelSeq(ms modelSeq, mon *lib.Monitor) int {
 		}
 	}
 	calls := 0
+	report := func(i int, method string) {
+		for _, c := range s.tr.changed() {
+			sig := fmt.Sprintf("C07/%s/changed-by/%s", e.key(), method)
+			input := map[string]any{"kind": "model", "model": ms.Model, "seed": ms.Seed, "seq": ms.Seq, "steps": i + 1, "v": ms.V, "instance": s.configured, "trace": tail(s.trace, 12)}
+			mon.Violate(sig, fmt.Sprintf("a message obtained at step %d (%s) changed after step %d (%s)", c.Step, c.Origin, i, method),
+				input, txt(c.copy), txt(c.ptr))
+		}
+	}
+	if s.subscribed {
+		s.tr.setStep(-1)
+		hung := s.subscribeAll(0, -1)
+		report(-1, "(subscribing)")
+		mon.Count("sessions:subscribers-first")
+		if hung {
+			mon.Count("hung:" + e.Pkg + ".(subscribing)")
+			return 0
+		}
+	}
 	for i := 0; i < ms.Steps; i++ {
+		if s.subscribed && i == ms.Steps/2 && ms.Steps >= 8 {
+			s.tr.setStep(i)
+			hung := s.subscribeAll(1, i)
+			report(i, "(subscribing)")
+			if hung {
+				mon.Count("hung:" + e.Pkg + ".(subscribing)")
+				break
+			}
+		}
 		method, hung := s.step(i)
 		calls++
 		mon.Count("call:" + e.Pkg + "." + method)
-		for _, c := range s.tr.changed() {
-			sig := fmt.Sprintf("C07/%s/changed-by/%s", e.key(), method)
-			input := map[string]any{"kind": "model", "model": ms.Model, "seed": ms.Seed, "seq": ms.Seq, "steps": i + 1, "instance": s.configured, "trace": tail(s.trace, 12)}
-			mon.Violate(sig, fmt.Sprintf("a message obtained at step %d (%s) changed after step %d (%s)", c.Step, c.Origin, i, method),
-				input, txt(c.copy), txt(c.ptr))
+		report(i, method)
+		if fd := s.lastFrame; fd != nil {
+			mon.Count("frame-difference:seen")
+			// reported only when a fresh instance driven through the same sequence shows it again at the same step
+			if again := frameAgain(e, ms, i); again != nil && again.Class == fd.Class {
+				sig := fmt.Sprintf("C07/%s/%s/%s", e.key(), fd.Class, method)
+				if fd.Class == "reads-change-what-reads-return" {
+					// seen by rendering the instance twice before the step: the step's own method has not run yet
+					sig = fmt.Sprintf("C07/%s/%s", e.key(), fd.Class)
+				}
+				input := map[string]any{"kind": "model", "model": ms.Model, "seed": ms.Seed, "seq": ms.Seq, "steps": i + 1, "v": ms.V, "instance": s.configured, "trace": tail(s.trace, 12)}
+				mon.Violate(sig, fmt.Sprintf("the read-only call at step %d (%s) did not leave the instance as it was: %s", i, method, fd.Class), input, again.Expected, again.Observed)
+			} else {
+				mon.Count("frame-difference:not-reproduced")
+			}
 		}
 		if hung {
 			mon.Count("hung:" + e.Pkg + "." + method)
 			break
 		}
 	}
+	if s.parkedCalls > 0 {
+		mon.Count("sessions:with-a-call-parked-behind-a-stalled-consumer")
+	}
+	if os.Getenv("C07_DEBUG") == "trace" {
+		for _, c := range s.trace {
+			fmt.Fprintf(os.Stderr, "TRACE %d %s %.150s -> %.100s\n", c.Step, c.Method, strings.Join(c.Args, " | "), c.Out)
+		}
+	}
+	if os.Getenv("C07_DEBUG") != "" {
+		fmt.Fprintln(os.Stderr, "DEBUG", ms.Model, ms.Seq, "snaps", s.tr.count(), "subs", len(s.subs), "parked", s.parkedCalls, "stalled", s.stalledSubs())
+	}
 	mon.Eval(ms.Model+fmt.Sprint(s.tr.count() > 0), s.tr.count() > 1, nil)
 	return calls
+}
+
+// newSeqSession builds the session of a sequence: odd sequences drive a configured instance (generated constructor
+// arguments), even ones the default instance; the density of generated messages cycles through sparse / medium /
+// dense; from generator version 6 on, sequences 2,3 mod 4 start with the subscribers in place and every sequence
+// checks the frame of its read-only steps.
+func newSeqSession(e modelEntry, ms modelSeq) *session {
+	s := newSessionCfg(e, seqRand(ms.Seed, ms.Model, ms.Seq), ms.Seq%2 == 1, []float64{0.4, 0.65, 0.85}[(ms.Seq/2)%3], ms.V)
+	s.frames = ms.V >= 6
+	s.subscribed = ms.V >= 6 && ms.Seq%4 >= 2
+	return s
+}
+
+// frameAgain drives a fresh instance through the first i+1 steps of the sequence and returns the frame difference
+// of step i, if it shows again.
+func frameAgain(e modelEntry, ms modelSeq, i int) *frameDiff {
+	s := newSeqSession(e, ms)
+	s.textFP = true
+	defer s.close()
+	if s.subscribed {
+		s.tr.setStep(-1)
+		if s.subscribeAll(0, -1) {
+			return nil
+		}
+	}
+	for k := 0; k <= i; k++ {
+		if s.subscribed && k == ms.Steps/2 && ms.Steps >= 8 && s.subscribeAll(1, k) {
+			return nil
+		}
+		if _, hung := s.step(k); hung {
+			return nil
+		}
+	}
+	return s.lastFrame
 }
 
 func tail(t []callDesc, n int) []callDesc {
@@ -772,6 +944,10 @@ func runModels(f lib.Flags, res *lib.Result) {
 	type job struct{ ms modelSeq }
 	names := make([]string, 0, len(modelTable))
 	for _, e := range modelTable {
+		// C07_MODELS=<substring> restricts the table (development only)
+		if sub := os.Getenv("C07_MODELS"); sub != "" && !strings.Contains(e.key(), sub) {
+			continue
+		}
 		names = append(names, e.key())
 	}
 	sort.Strings(names)
@@ -783,7 +959,7 @@ func runModels(f lib.Flags, res *lib.Result) {
 			if q < 6 {
 				st = 6 + 3*q // small cases first: the first violation per signature is the replay
 			}
-			if ms := (modelSeq{Kind: "model", Model: name, Seed: f.Seed, Seq: q, Steps: st}); begin(mon, name, fmt.Sprint(q), ms) {
+			if ms := (modelSeq{Kind: "model", Model: name, Seed: f.Seed, Seq: q, Steps: st, V: genVersion}); begin(mon, name, fmt.Sprint(q), ms) {
 				runModelSeq(ms, mon)
 			}
 		}
